@@ -594,6 +594,9 @@ mut2('c18-pk-static', 'C18', 'C18.SIB.get_node_labels', [(traits, '''        let
         let pk = PUBLIC_KEY.get_or_init(|| VRFPublicKey::from(&key)).clone();
 
         #[cfg(feature = "parallel_vrf")]''')], 'public key cached across storages (seed C18-r2-b)', also=['C14'])
+mut('c01-stale-constant', 'C01', 'C01.F.stale_value[whatsapp_v1]', wa, '''    fn stale_azks_value() -> AzksValue {
+        AzksValue(Self::hash(&EMPTY_VALUE))''', '''    fn stale_azks_value() -> AzksValue {
+        Self::empty_node_hash()''', 'stale leaves carry the absent-child digest (seed C01-r3-a)')
 
 out = [m for m in M if not m.get('disabled')]
 json.dump({'mutants': out}, open(os.path.join(os.path.dirname(os.path.abspath(__file__)), 'mutants.json'), 'w'), indent=1)
